@@ -317,6 +317,8 @@ def lu(a):
 def solvetri(A, X, lower=True):
     _use("solvetri")
     CTX.require(alg.invok(A.term), "solve_triangular needs a non-singular matrix")
+    # scipy reads only the triangle named by `lower`: the result is A^-1 X only if A is triangular on that side
+    CTX.require(alg.tril(A.term) if lower else alg.triu(A.term), "solve_triangular(lower=%s) is given a matrix that is triangular on that side" % bool(lower))
     if not bool(dim_eq(A.shape[1], X.shape[0])):
         raise ValueError("solve_triangular: dimension mismatch")
     return AMat(alg.mmul(alg.minv(A.term), X.term), X.shape, np.promote_types(A.dtype, X.dtype), fresh=True)
@@ -368,6 +370,16 @@ def linear_transpose(fun, primals, duals):
     if not bool(dim_eq(G.shape[0], duals.shape[0])):
         raise ValueError("linear_transpose: cotangent shape mismatch")
     return AMat(alg.mmul(alg.tr(G.term), duals.term), (n,) + tuple(duals.shape[1:]), np.promote_types(G.dtype, duals.dtype), fresh=True)
+
+
+def iscomplexobj(x):
+    _use("iscomplexobj")
+    if isinstance(x, (SScal, AMat)):
+        dt = x.dtype
+        if dt is not None:
+            return bool(is_cplx(dt))
+        return not x.is_real()
+    return bool(np.iscomplexobj(x))
 
 
 def tree_flatten(value):
